@@ -316,8 +316,14 @@ fn layer_b_case(ty: &str, seq: &[u8]) -> (Vec<Failure>, bool) {
                     results.push(r.clone());
                 }
             }
+            // the same with a result also taken after the first line (values arrive after a result was produced)
+            if let Outcome::Ok(t) = sut::run_batch_with_results(&tables, &st, &pl, &[1]) {
+                if let Some(r) = t.rows.get(0) {
+                    results.push(r.clone());
+                }
+            }
         }
-        let consistent = results.len() == permutations(lines.len()).len() && results.iter().all(|r| crate::refmodel::tuple_eq(r, &results[0])) && results.iter().all(|r| crate::refmodel::ref_eq(&r[0], &r[2]) && crate::refmodel::ref_eq(&r[1], &r[3]));
+        let consistent = results.len() == 2 * permutations(lines.len()).len() && results.iter().all(|r| crate::refmodel::tuple_eq(r, &results[0])) && results.iter().all(|r| crate::refmodel::ref_eq(&r[0], &r[2]) && crate::refmodel::ref_eq(&r[1], &r[3]));
         if !consistent {
             out.push(fail(
                 format!("consumer:min-max-percentile-order:{}:{}", ty, kinds.join(",")),
@@ -467,6 +473,33 @@ fn layer_c_case(it: &str, rt: &str) -> Vec<Failure> {
                     json!(got.clone()),
                     (it.len() + rt.len()) as u64,
                 ));
+            }
+        }
+    }
+    // IN / NOT IN with short and long literal lists use the `=` above: membership by numeric value
+    if let (Some(_), true) = (expected, r.is_finite()) {
+        let eq = expected == Some(Ordering::Equal);
+        for fill in [0usize, 2, 7, 8, 12] {
+            // fillers equal to no INT token: x.5 values
+            let mut items: Vec<String> = (0..fill).map(|i| format!("{}.5", 1000 + i)).collect();
+            items.insert(fill / 2, if rt.contains('.') || rt.contains('e') { rt.to_string() } else { format!("{}.0", rt) });
+            for (neg, want) in [(false, eq), (true, !eq)] {
+                let stmt = format!("SELECT k FROM t WHERE a {}IN ({})", if neg { "NOT " } else { "" }, items.join(", "));
+                let st = match sut::parse(&stmt) {
+                    Ok(s) => s,
+                    Err(_) => continue, // a literal form the tokenizer does not take: not this layer's business
+                };
+                let n = count_rows(&sut::run_batch(&tables, &st, &[&line]));
+                if n != Ok(if want { 1 } else { 0 }) {
+                    out.push(fail(
+                        format!("consumer:int-vs-real:in-list:{}", if fill >= 7 { "long" } else { "short" }),
+                        format!("INT {} against a list of {} REAL literals containing {}: `{}` gave {:?}, `=` says {}", it, fill + 1, rt, stmt, n, want),
+                        json!({"layer": "C", "int": it, "real": rt}),
+                        json!(want),
+                        json!(format!("{:?}", n)),
+                        (it.len() + rt.len() + fill) as u64,
+                    ));
+                }
             }
         }
     }
